@@ -141,7 +141,12 @@ fn build_inner(uid: Uid, spec: &SourceSpec, s: &mut Src, dup_of: Option<i32>, gi
             s.stream = Some(st.clone());
             Inner::Stream(StreamSource::new(ScriptStream(st)).expect("stream source"))
         }
-        Kind::Comp { n, transient } => {
+        Kind::Comp { n, transient, timer } => {
+            let tm = timer.map(|dl| {
+                let i = resolve_dl(dl).unwrap_or_else(|| std::time::Instant::now() + Duration::from_secs(3600));
+                s.deadline = Some((i, i));
+                Timer::from_deadline(i)
+            });
             let mut cs = Vec::new();
             for _ in 0..(*n).max(1) {
                 let (fdx, child) = new_child(FdKind::Eventfd, Int::Read, Md::Level);
@@ -150,7 +155,7 @@ fn build_inner(uid: Uid, spec: &SourceSpec, s: &mut Src, dup_of: Option<i32>, gi
                 cs.push(if *transient { Child::Tr(TransientSource::from(g)) } else { Child::Plain(g) });
             }
             let _ = uid;
-            Inner::Comp(cs)
+            Inner::Comp(tm, cs)
         }
     }
 }
@@ -252,7 +257,7 @@ fn insert_inner(spec: &SourceSpec, ctx: Ctx, given: Option<(FdX, Option<OwnedFd>
     let owned_adapter: Option<OwnedCell> = if spec.owns_adapter {
         let (a, b) = sysx::socket_pair();
         let raw = a.as_raw_fd();
-        handle.adapt_io(FdX::owned(a)).ok().map(|ad| OwnedCell(std::rc::Rc::new(std::cell::RefCell::new(Some(OwnedAd { ad: Some(ad), _peer: b, raw })))))
+        handle.adapt_io(FdX::named(raw)).ok().map(|ad| OwnedCell(std::rc::Rc::new(std::cell::RefCell::new(Some(OwnedAd { ad: Some(ad), keep: Some(a), _peer: b, raw })))))
     } else {
         None
     };
